@@ -170,9 +170,14 @@ def r05_3(ctx, g, helpers):
             continue
         reg, lst = h.params[0], h.params[1]
         qs = qe = None
+        zero = []  # a bound that is None for an absent text: decided for the regions that give both numbers; 0 joins the table
         for st in h.node.body:
-            if isinstance(st, ast.Assign) and isinstance(st.targets[0], ast.Name) and isinstance(st.value, ast.Call) and norm(st.value.func) == "int":
-                a = st.value.args[0]
+            v_ = st.value if isinstance(st, ast.Assign) else None
+            if isinstance(v_, ast.IfExp) and isinstance(v_.orelse, ast.Constant) and v_.orelse.value is None and isinstance(v_.body, ast.Call) and norm(v_.body.func) == "int" and v_.body.args and norm(v_.test) == norm(v_.body.args[0]):
+                v_ = v_.body
+                zero = [0]
+            if isinstance(st, ast.Assign) and isinstance(st.targets[0], ast.Name) and isinstance(v_, ast.Call) and norm(v_.func) == "int":
+                a = v_.args[0]
                 if isinstance(a, ast.Subscript) and norm(a.value) == reg:
                     if const_value(a.slice) == 1:
                         qs = st.targets[0].id
@@ -218,8 +223,8 @@ def r05_3(ctx, g, helpers):
 
             bad = None
             rows = 0
-            for env, scale in ordtab.weak_orderings(["s", "e", "qs", "qe"], []):
-                if not (env["s"] < env["e"] and env["qs"] <= env["qe"]):
+            for env, scale in ordtab.weak_orderings(["s", "e", "qs", "qe"], zero):
+                if not (env["s"] < env["e"] and env["qs"] <= env["qe"]) or (zero and min(env.values()) < 0):
                     continue
                 rows += 1
                 ps = ordtab.consistent_paths(paths, env, atom_of, scale)
